@@ -29,11 +29,17 @@ func countsStr(m map[multicodec.Code]uint64) string {
 	return strings.Join(s, ",")
 }
 
+var inspectCalls int
+
 func runInspect(input []byte, ro readOpts, full bool) string {
 	noteCase(fmt.Sprintf("inspect full=%d", b2i(full)), ro.String(), input)
 	r, err := carv2.NewReader(bytes.NewReader(input), ro.opts()...)
 	if err != nil {
 		return "r=" + classify(err)
+	}
+	inspectCalls++
+	if inspectCalls%2 == 0 {
+		r.Inspect(!full) // every other time the other kind of inspection has been run on this Reader before
 	}
 	st, err := r.Inspect(full)
 	// the same Reader asked again (also after Roots and a payload reader were used) answers the same
